@@ -45,19 +45,24 @@ CHECK_DEADLOCK FALSE
 TRACE_CFG = "SPECIFICATION TSpec\nINVARIANT Verdict\nINVARIANT Accepted\nCHECK_DEADLOCK FALSE\n"
 
 
+# Einsum names in program order: deliberately NOT in ascending string order (a block must list its Einsums in program order)
+ENAMES = ["Tq", "Tc", "Tx", "Ta", "Tm", "Tb", "Tz", "Td"]
+
+
 def yaml_of(hist):
     """A cascade T0 <- A, T1 <- T0, ... whose i-th Einsum has the i-th descriptor (config, space list, bound components)."""
     n = len(hist)
-    decl = "    A: [K, M, N]\n" + "".join("    T%d: [K, M, N]\n" % i for i in range(n))
-    exprs = "".join("    - T%d[k, m, n] = %s[k, m, n]\n" % (i, "A" if i == 0 else "T%d" % (i - 1)) for i in range(n))
-    lo = "".join("    T%d: [%s]\n" % (i, ", ".join(d["loop"])) for i, d in enumerate(hist))
-    st = "".join("    T%d:\n      space: [%s]\n      time: [%s]\n" % (i, ", ".join(d["space"]), ", ".join(r for r in d["loop"] if r not in d["space"]))
+    N = ENAMES
+    decl = "    A: [K, M, N]\n" + "".join("    %s: [K, M, N]\n" % N[i] for i in range(n))
+    exprs = "".join("    - %s[k, m, n] = %s[k, m, n]\n" % (N[i], "A" if i == 0 else N[i - 1]) for i in range(n))
+    lo = "".join("    %s: [%s]\n" % (N[i], ", ".join(d["loop"])) for i, d in enumerate(hist))
+    st = "".join("    %s:\n      space: [%s]\n      time: [%s]\n" % (N[i], ", ".join(d["space"]), ", ".join(r for r in d["loop"] if r not in d["space"]))
                  for i, d in enumerate(hist))
     arch = "".join("  %s:\n  - name: System\n    attributes:\n      clock_frequency: 3\n    local:\n" % c +
                    "".join(comp_arch(f) for f in COMPS) for c in CFGS)
     binds = ""
     for i, d in enumerate(hist):
-        binds += "  T%d:\n  - config: %s\n    prefix: tmp/T%d\n" % (i, d["cfg"], i)
+        binds += "  %s:\n  - config: %s\n    prefix: tmp/%s\n" % (ENAMES[i], d["cfg"], ENAMES[i])
         binds += "".join(comp_bind(f, d) for f in d["comps"])
     return "einsum:\n  declaration:\n%s  expressions:\n%smapping:\n  loop-order:\n%s  spacetime:\n%sarchitecture:\n%sbindings:\n%s" % (decl, exprs, lo, st, arch, binds)
 
@@ -73,7 +78,7 @@ def replay(hist):
     program.add_einsum(0)
     hardware = Hardware(Architecture.from_str(y), Bindings.from_str(y), program)
     fusion = Fusion(hardware)
-    names = ["T%d" % j for j in range(len(hist))]
+    names = ENAMES[:len(hist)]
     evs = []
     for i, d in enumerate(hist):
         program.reset()
@@ -90,7 +95,7 @@ def replay_full(hist):
     y = yaml_of(hist)
     text = str(HiFiber(Einsum.from_str(y), Mapping.from_str(y), Architecture.from_str(y), Bindings.from_str(y), Format.from_str(y)))
     m = re.search(r'^metrics\["blocks"\] = (\[.*\])$', text, re.M)
-    names = ["T%d" % j for j in range(len(hist))]
+    names = ENAMES[:len(hist)]
     blocks = [[names.index(e) + 1 for e in b] for b in json.loads(m.group(1))]
     return {"kind": "final", "events": [dict(d, blocks=[]) for d in hist], "blocks": blocks}
 
